@@ -13,6 +13,7 @@ import (
 	"time"
 
 	mail "github.com/wneessen/go-mail"
+	"github.com/wneessen/go-mail/smtp"
 
 	"verif/harness/pipeconn"
 	"verif/harness/rec"
@@ -48,6 +49,33 @@ func (c *conn) Close() error {
 		c.r.Emit("cclose", "cid", c.id)
 	})
 	return c.Conn.Close()
+}
+
+// lingerConn is the server end of a real TCP connection (QuickSend and smtp.SendMail dial by themselves, so the
+// client end cannot be wrapped): when the server is done with it, it waits for the client to close its end.
+type lingerConn struct {
+	net.Conn
+	id         int
+	once       sync.Once
+	done       chan struct{}
+	peerClosed bool
+}
+
+func (c *lingerConn) Close() error {
+	c.once.Do(func() {
+		_ = c.Conn.SetReadDeadline(time.Now().Add(3 * time.Second))
+		buf := make([]byte, 256)
+		for {
+			if _, err := c.Conn.Read(buf); err != nil {
+				ne, isNet := err.(net.Error)
+				c.peerClosed = !(isNet && ne.Timeout())
+				break
+			}
+		}
+		_ = c.Conn.Close()
+		close(c.done)
+	})
+	return nil
 }
 
 // Runner replays one scenario.
@@ -99,6 +127,42 @@ func (rn *Runner) Run() {
 		r.Emit("open", "cid", dials)
 		return c, nil
 	}
+	// real TCP on the loopback interface for the calls that dial by themselves
+	var ln net.Listener
+	var lingers []*lingerConn
+	deadAddr := ""
+	needTCP := false
+	for _, o := range sc.Ops {
+		if o.Op == "QuickSend" || o.Op == "LegacySendMail" {
+			needTCP = true
+		}
+	}
+	if needTCP {
+		var lerr error
+		if ln, lerr = net.Listen("tcp", "127.0.0.1:0"); lerr != nil {
+			rn.Infra = lerr
+			return
+		}
+		defer ln.Close()
+		// an address nothing listens on (a port that was free a moment ago may belong to the listener of a scenario
+		// that runs in parallel by now): the tcpmux port of a loopback address no scenario binds
+		deadAddr = "127.0.0.2:1"
+		go func() {
+			for {
+				tc, aerr := ln.Accept()
+				if aerr != nil {
+					return
+				}
+				mu.Lock()
+				dials++
+				lc := &lingerConn{Conn: tc, id: dials, done: make(chan struct{})}
+				lingers = append(lingers, lc)
+				r.Emit("open", "cid", dials)
+				srv.Go(lc)
+				mu.Unlock()
+			}
+		}()
+	}
 	c, err := mail.NewClient("mail.example.test", mail.WithDialContextFunc(dial), mail.WithTLSPolicy(mail.NoTLS),
 		mail.WithTimeout(5*time.Second), mail.WithHELO("client.test"))
 	if err != nil {
@@ -131,7 +195,7 @@ func (rn *Runner) Run() {
 		refuse = o.F == "refused"
 		mu.Unlock()
 		var msg *mail.Msg
-		if o.Op == "Send" || o.Op == "DialAndSend" {
+		if o.Op == "Send" || o.Op == "DialAndSend" || o.Op == "DialAndSendCtx" {
 			msg = mail.NewMsg()
 			if err := msg.From(sender(m)); err != nil {
 				rn.Infra = err
@@ -145,6 +209,14 @@ func (rn *Runner) Run() {
 			msg.SetBodyString(mail.TypeTextPlain, "body of the message\r\n")
 		}
 		r.Emit("call", "k", m, "op", o.Op, "f", o.F)
+		mu.Lock()
+		nl := len(lingers)
+		mu.Unlock()
+		tcpAddr := deadAddr
+		if ln != nil && o.F != "refused" {
+			tcpAddr = ln.Addr().String()
+		}
+		legacyOK := false
 		var oerr error
 		ok := timed(func() {
 			switch o.Op {
@@ -158,6 +230,15 @@ func (rn *Runner) Run() {
 				oerr = c.Close()
 			case "DialAndSend":
 				oerr = c.DialAndSend(msg)
+			case "DialAndSendCtx":
+				oerr = c.DialAndSendWithContext(context.Background(), msg)
+			case "QuickSend": // package-level helper: its own Client on its own TCP connection
+				msg, oerr = mail.QuickSend(tcpAddr, nil, sender(m), []string{rcpt(m)}, fmt.Sprintf("life cycle message %d", m),
+					[]byte("body of the message\r\n"))
+			case "LegacySendMail": // smtp.SendMail, the function kept from net/smtp
+				oerr = smtp.SendMail(tcpAddr, nil, sender(m), []string{rcpt(m)},
+					[]byte(fmt.Sprintf("From: <%s>\r\nTo: <%s>\r\nSubject: life cycle message %d\r\n\r\nbody of the message\r\n", sender(m), rcpt(m), m)))
+				legacyOK = oerr == nil
 			default:
 				oerr = fmt.Errorf("unknown op %q", o.Op)
 			}
@@ -179,11 +260,34 @@ func (rn *Runner) Run() {
 		if errors.As(oerr, &se) && se.Reason == mail.ErrConnCheck {
 			noconn = true
 		}
-		r.Emit("ret", "k", m, "op", o.Op, "err", oerr != nil, "delivered", msg != nil && msg.IsDelivered(),
+		// the TCP connections this call opened: closed by the client before it returned?
+		mu.Lock()
+		mine := append([]*lingerConn(nil), lingers[nl:]...)
+		mu.Unlock()
+		for _, lc := range mine {
+			select {
+			case <-lc.done:
+				if lc.peerClosed {
+					r.Emit("cclose", "cid", lc.id)
+				}
+			case <-time.After(8 * time.Second):
+			}
+		}
+		r.Emit("ret", "k", m, "op", o.Op, "err", oerr != nil, "delivered", (msg != nil && msg.IsDelivered()) || legacyOK,
 			"noconn", noconn, "text", text)
 	}
 	// transports the client never closed
 	mu.Lock()
+	for _, lc := range lingers {
+		select {
+		case <-lc.done:
+			if !lc.peerClosed {
+				r.Emit("leftopen", "cid", lc.id)
+			}
+		default:
+			r.Emit("leftopen", "cid", lc.id)
+		}
+	}
 	for _, cn := range conns {
 		cn.mu.Lock()
 		if !cn.shut {
